@@ -15,6 +15,28 @@ from hgv.trace import tnum
 INF = float("inf")
 
 
+def snode_equiv(st):
+    """the generic-node twin of a static harness node (harness/hv_static.cpp)."""
+    if st.get("op") != "snode":
+        return st
+    k = st["kind"]
+    a, b = (st["ins"] + [None])[:2]
+    base = {"id": st["id"], "op": "node", "out": "TS[int]", "bias": st.get("bias", 0), "coef": st.get("coef", [1, 1]), "static": k}
+    if k == "sum2":
+        return dict(base, ins=[a, b], fn="sum")
+    if k == "sum2_pb":
+        return dict(base, ins=[a, {"r": b, "passive": True}], fn="sum")
+    if k == "sum2_ub":
+        return dict(base, ins=[a, b], fn="sum", valid=[0])
+    if k == "sum2_pub":
+        return dict(base, ins=[a, {"r": b, "passive": True}], fn="sum", valid=[0])
+    if k == "acc":
+        return dict(base, ins=[a], fn="acc", coef=st.get("coef", [1])[:1])
+    if k == "timer":
+        return dict(base, ins=[a], fn="count", bias=0, sched={"tick": [["s", "rel", st.get("bias", 1), None]]}, tags=[])
+    raise ValueError(k)
+
+
 def label_map(prog):
     """label -> statement for every harness statement of the program (sub-program statements are prefixed)."""
     out = {}
@@ -22,7 +44,7 @@ def label_map(prog):
     def walk(stmts, prefix):
         for st in stmts:
             if "id" in st:
-                out[prefix + st["id"]] = st
+                out[prefix + st["id"]] = snode_equiv(st)
     walk(prog["stmts"], "")
     for name, sub in prog.get("subs", {}).items():
         walk(sub["stmts"], name + ".")
